@@ -10,7 +10,7 @@
 From Coq Require Import ZArith List Bool Arith Lia.
 From Verif Require Import Framing.Model Framing.Valid Framing.Proofs Framing.Bytes C06.Spec C06.Proofs
                           C06.ProofsBytes C06.Bridge
-                          C09.Spec C09.Proofs C09.ProofsTrees.
+                          C09.Spec C09.Proofs C09.ProofsTrees C09.AfterError.
 Import ListNotations.
 Open Scope Z_scope.
 
@@ -134,6 +134,23 @@ Theorem C09_scan_valid : forall (T : Type) (fs : list (frame T)),
 Proof. exact (@scan_valid). Qed.
 Print Assumptions C09_scan_valid.
 
+(* OUTSIDE the property, modelled and observed: the offsets after a scan that FAILED.  The property
+   speaks of stop positions after returned objects of a valid file; what the two accessors report
+   once Scan has returned false with an error is not constrained by it.  The code's behaviour (an
+   error travels as a pair as well, Next shifts before looking at the error; a reader-side error
+   pair carries Offset 0, a decode error pair the bad block's offset) is modelled in
+   Framing/Model.v ([scan_err_off], [end_offsets]) and compared with the implementation on every cut
+   and every damage class by the C06 harness.  For a truncated valid file: FullyScannedBytes = 0,
+   PreviousFullyScannedBytes = the offset of the last complete data block taken.  Resuming from
+   either re-delivers objects, it never skips one. *)
+Theorem C09_end_offsets_after_truncation : forall (T : Type) (f : frame T) r k,
+  valid_file (f :: r) = true -> frame_size f <= k <= total_size (f :: r) ->
+  is_boundary (f :: r) k = false ->
+  end_offsets (scan current (f :: r) k) (scan_err_off current (f :: r) k)
+  = (snd (spec_final (frames_before (f :: r) k)), 0).
+Proof. exact (@end_offsets_after_truncation). Qed.
+Print Assumptions C09_end_offsets_after_truncation.
+
 (* ---- non-vacuity: header, a block, a block emptied by skip flags, two more blocks ---- *)
 Definition xh : frame Z :=
   Frame 14 14 (HdrOk TyHeader 30) 30 (BlobOk (Blob EncRaw (PHeader (HOk true)))).
@@ -162,3 +179,16 @@ Proof. vm_compute. repeat split; reflexivity. Qed.
 (* an offset that is not a block start is not a valid place to resume *)
 Example xfile_seek_inside : seek 100 xfile = None.
 Proof. vm_compute. reflexivity. Qed.
+
+(* cut inside the last block: (PreviousFullyScannedBytes, FullyScannedBytes) = (161, 0); a decode
+   error in the last block instead carries that block's offset: (161, 219) *)
+Example xfile_cut_in_last_block :
+  end_offsets (scan current xfile 250) (scan_err_off current xfile 250) = (161, 0)
+  /\ out (scan current xfile 250) = Failed.
+Proof. vm_compute. split; reflexivity. Qed.
+Example xfile_decode_error_in_last_block :
+  let bad := [xh; xd 40 [5; 9]; xd 41 []; xd 42 [13];
+              Frame 12 12 (HdrOk TyData 43) 43 (BlobOk (Blob (EncZlib 70 (InflOk 70)) (PData DErr)))] in
+  end_offsets (scan current bad 278) (scan_err_off current bad 278) = (161, 219).
+Proof. vm_compute. reflexivity. Qed.
+
